@@ -122,8 +122,11 @@ func vDecodeNLRIs(b []byte) ([]vNLRI, error) {
 	return out, c.err
 }
 
-// vDecode decodes exactly one BGP message occupying the whole of bs.
-func vDecode(bs []byte, as4 bool) (*vMsg, error) {
+// vDecode decodes exactly one BGP message occupying the whole of bs (RFC 4271: at most 4096 octets).
+func vDecode(bs []byte, as4 bool) (*vMsg, error) { return vDecodeMax(bs, as4, 4096) }
+
+// vDecodeMax is vDecode with another upper limit on the message length (a lenient receiver).
+func vDecodeMax(bs []byte, as4 bool, maxLen int) (*vMsg, error) {
 	c := &vCur{b: bs}
 	for _, x := range c.take(16) {
 		if x != 0xff {
@@ -135,8 +138,8 @@ func vDecode(bs []byte, as4 bool) (*vMsg, error) {
 	if c.err != nil {
 		return nil, c.err
 	}
-	if l < 19 || l > 4096 {
-		return nil, fmt.Errorf("message length %d outside 19..4096", l)
+	if l < 19 || l > maxLen {
+		return nil, fmt.Errorf("message length %d outside 19..%d", l, maxLen)
 	}
 	if l != len(bs) {
 		return nil, fmt.Errorf("length field %d but %d bytes", l, len(bs))
@@ -924,7 +927,36 @@ func TestVerifWire(t *testing.T) {
 		out.Stat("withdraw", 1)
 		if err == nil {
 			bad := ""
-			m, derr := vDecode(b.Bytes(), true)
+			// what was written is read as a STREAM of messages (a sender may legitimately need
+			// more than one): every message must be well-formed, together they must withdraw
+			// exactly the requested prefixes, in order
+			m := &vMsg{Type: 2, Update: &vUpdateMsg{}}
+			var derr error
+			oversized := false
+			for rest := b.Bytes(); len(rest) > 0 && derr == nil; {
+				if len(rest) < 19 {
+					derr = errors.New("trailing bytes")
+					break
+				}
+				l := int(rest[16])<<8 | int(rest[17])
+				if l < 19 || l > len(rest) {
+					derr = fmt.Errorf("length field %d with %d bytes left", l, len(rest))
+					break
+				}
+				oversized = oversized || l > 4096
+				var one *vMsg
+				if one, derr = vDecode(rest[:l], true); derr == nil {
+					if one.Type != 2 {
+						m.Type = one.Type
+					} else {
+						u := one.Update
+						m.Update.Withdrawn = append(m.Update.Withdrawn, u.Withdrawn...)
+						m.Update.NLRI = append(m.Update.NLRI, u.NLRI...)
+						m.Update.HasOrigin = m.Update.HasOrigin || u.HasOrigin || u.HasASPath || u.HasNextHop || u.HasLP || u.HasComm || u.Other != 0
+					}
+				}
+				rest = rest[l:]
+			}
 			switch {
 			case derr != nil:
 				bad = "not a well-formed message: " + derr.Error()
@@ -948,7 +980,7 @@ func TestVerifWire(t *testing.T) {
 			}
 			if bad != "" {
 				sig := "withdraw-roundtrip"
-				if b.Len() > 4096 {
+				if oversized { // ONE message longer than 4096 octets
 					sig = "withdraw-exceeds-4096-octets"
 					out.Stat("withdraw:over4096", 1)
 				}
@@ -979,6 +1011,7 @@ func TestVerifWire(t *testing.T) {
 	}
 	wdrCase("814x32", many(814)) // 23 + 5*814 = 4093 octets
 	wdrCase("815x32", many(815)) // 4098 octets: over the RFC 4271 maximum
+	out.Stat("withdraw:815-prefix-case", 1)
 
 	// ------------------------------------------------------------ sendKeepalive
 	{
